@@ -89,7 +89,10 @@ class Resolver:
                 t = self.resolve(e.args[0], mi, cfg, at, depth + 1)
                 if t is None:
                     return None
+                fac = getattr(t, "factory", None)
                 t = Target(t.qual, list(t.prefix) + list(e.args[1:]), dict(t.kwargs), t.chain + [fq])
+                if fac is not None:
+                    t.factory = fac  # type: ignore[attr-defined]
                 for kw in e.keywords:
                     if kw.arg:
                         t.kwargs[kw.arg] = kw.value
